@@ -7,6 +7,7 @@ import (
 	"io"
 	"net"
 	"net/http"
+	"os"
 	"reflect"
 	"strconv"
 	"strings"
@@ -1117,7 +1118,20 @@ func init() {
 		}
 		defer srv.pc.Close()
 		emit := func(line string) {
-			impl := runCacheLine(line, srv)
+			// a history that does not come back (queries waiting on each other inside the resolver) would hold the whole
+			// shard until the area's time limit: after 40 s the case is recorded as the one that was running and the process
+			// ends - the engine reports it with that case as the replay
+			done := make(chan string, 1)
+			go func() { done <- runCacheLine(line, srv) }()
+			var impl string
+			select {
+			case impl = <-done:
+			case <-time.After(40 * time.Second):
+				c.Begin(line)
+				c.Close()
+				fmt.Fprintln(os.Stderr, "cache history did not return within 40 s (queries blocked inside the resolver)")
+				os.Exit(4)
+			}
 			c.Emit(line, impl)
 			for _, t := range strings.Split(impl, " ") {
 				switch {
